@@ -33,9 +33,10 @@ const (
 	OpSelect               // select / channel op
 	OpFlag                 // harness park: enabled when *flag != 0
 	OpFunc                 // harness park: enabled when fn() is true
+	OpTimer                // goroutine of an AfterFunc timer: enabled once the timer has fired
 )
 
-var kindNames = [...]string{"start", "point", "lock", "rlock", "wgwait", "sleep", "select", "flag", "func"}
+var kindNames = [...]string{"start", "point", "lock", "rlock", "wgwait", "sleep", "select", "flag", "func", "timer"}
 
 func (k OpKind) String() string { return kindNames[k] }
 
@@ -70,6 +71,7 @@ type Timer struct {
 	stopped  bool
 	owner    string
 	real     *time.Timer
+	th       *Thread
 }
 
 // Sched is one controlled execution
@@ -177,21 +179,24 @@ func (s *Sched) Spawn(name string, tag string, f func()) *Thread {
 //go:norace
 func (s *Sched) threadMain(t *Thread, f func()) {
 	t.g.wait()
-	defer func() {
-		if r := recover(); r != nil {
-			if s.Panic == nil {
-				s.Panic = r
-				buf := make([]byte, 8192)
-				s.PanicStack = buf[:runtime.Stack(buf, false)]
-			}
-		}
-		t.exited = true
-		s.back.signal()
-	}()
+	defer s.threadExit(t)
 	if s.aborting {
 		return
 	}
 	f()
+}
+
+//go:norace
+func (s *Sched) threadExit(t *Thread) {
+	if r := recover(); r != nil {
+		if s.Panic == nil {
+			s.Panic = r
+			buf := make([]byte, 8192)
+			s.PanicStack = buf[:runtime.Stack(buf, false)]
+		}
+	}
+	t.exited = true
+	s.back.signal()
 }
 
 // Go is what a rewritten go statement calls
@@ -209,8 +214,10 @@ func Go(f func()) {
 	p := s.running
 	p.nchild++
 	s.Spawn(fmt.Sprintf("%s/%d", p.Name, p.nchild), "", f)
-	// a spawn is a scheduling point: the child may run before the parent continues
-	s.park(p, OpPoint, nil, "spawn")
+	s.running = p
+	// The child is enabled from now on. The parent does not park here: until its next scheduling
+	// point it performs no visible operation, so every ordering of the child's first visible
+	// operation against the parent's next one is still explored.
 }
 
 // park publishes the pending operation of the running thread and hands control to the explorer
@@ -220,6 +227,9 @@ func (s *Sched) park(t *Thread, kind OpKind, obj interface{}, label string) {
 	t.kind, t.obj, t.label = kind, obj, label
 	s.back.signal()
 	t.g.wait()
+	// every step a thread takes is part of its fingerprint (two consecutive plain points must not
+	// look like the same state)
+	t.H = mix(t.H, uint64(kind)+0x1000)
 	if s.aborting {
 		// unwind this goroutine; deferred shim calls are no-ops while aborting
 		runtime.Goexit()
@@ -248,9 +258,12 @@ func Active() *Sched {
 //go:norace
 func (s *Sched) External(f func()) {
 	s.external = true
-	defer func() { s.external = false }()
+	defer s.endExternal()
 	f()
 }
+
+//go:norace
+func (s *Sched) endExternal() { s.external = false }
 
 // Aborting reports whether the active execution is being torn down (shim calls are no-ops then)
 //
@@ -352,6 +365,9 @@ func (s *Sched) isEnabled(t *Thread) bool {
 		return *t.flag != 0
 	case OpFunc:
 		return t.fn()
+	case OpTimer:
+		tm := t.obj.(*Timer)
+		return tm.fired && !tm.stopped
 	}
 	return false
 }
@@ -397,9 +413,15 @@ func (s *Sched) Step(t *Thread) {
 func (s *Sched) Live() []*Thread {
 	var res []*Thread
 	for _, t := range s.threads {
-		if !t.exited {
-			res = append(res, t)
+		if t.exited {
+			continue
 		}
+		if t.kind == OpTimer {
+			if tm := t.obj.(*Timer); tm.stopped || !tm.fired {
+				continue
+			}
+		}
+		res = append(res, t)
 	}
 	return res
 }
@@ -499,13 +521,14 @@ func (m *Mutex) Unlock() {
 		m.real.Unlock()
 		return
 	}
+	if s.OnUnlock != nil {
+		// still holding the real lock: what the callback reads is ordered like the critical section
+		s.OnUnlock(m)
+	}
 	m.real.Unlock()
 	m.held = false
 	h := s.oh(m)
 	*h = mix(*h, s.running.H)
-	if s.OnUnlock != nil {
-		s.OnUnlock(m)
-	}
 }
 
 //go:norace
@@ -556,13 +579,14 @@ func (m *RWMutex) Unlock() {
 		m.real.Unlock()
 		return
 	}
+	if s.OnUnlock != nil {
+		// still holding the real lock: what the callback reads is ordered like the critical section
+		s.OnUnlock(m)
+	}
 	m.real.Unlock()
 	m.writer = false
 	h := s.oh(m)
 	*h = mix(*h, s.running.H)
-	if s.OnUnlock != nil {
-		s.OnUnlock(m)
-	}
 }
 
 //go:norace
@@ -779,8 +803,8 @@ func Select(hasDefault bool, cases ...SelCase) int {
 	}
 	t := s.running
 	if hasDefault {
-		// non-blocking: a plain point, then one attempt
-		s.park(t, OpPoint, nil, "select-default")
+		// Non-blocking channel operation: not a scheduling point of its own, it takes effect
+		// atomically with the step it is part of (see DESIGN.md 2.2).
 		if o.try() {
 			s.touchChan(t, o.cases[o.chosen].ch)
 			return o.chosen
@@ -883,6 +907,18 @@ func (s *Sched) newTimer(d time.Duration, f func(), withChan bool) *Timer {
 		tm.owner = fmt.Sprintf("timer%d", tm.seq)
 	}
 	s.timers = append(s.timers, tm)
+	if f != nil && s.running != nil {
+		// The goroutine of an AfterFunc timer is created at registration (it becomes runnable when
+		// the timer fires), so that it happens-after the registering code exactly like a real
+		// time.AfterFunc callback - this matters for the race build.
+		creator := s.running
+		th := s.Spawn(tm.owner, "timer", f)
+		th.kind = OpTimer
+		th.obj = tm
+		th.H = mix(th.H, uint64(tm.deadline))
+		s.running = creator
+		tm.th = th
+	}
 	return tm
 }
 
@@ -963,9 +999,11 @@ func (s *Sched) FireDue() {
 		}
 		tm.fired = true
 		if tm.f != nil {
-			s.running = nil // the timer thread has no parent fingerprint
-			t := s.Spawn(tm.owner, "timer", tm.f)
-			t.H = mix(t.H, uint64(tm.deadline))
+			if tm.th == nil {
+				s.running = nil // registered from outside a managed thread
+				t := s.Spawn(tm.owner, "timer", tm.f)
+				t.H = mix(t.H, uint64(tm.deadline))
+			}
 		} else if tm.C != nil {
 			select {
 			case tm.C <- s.base.Add(time.Duration(s.elapsed)):
